@@ -419,11 +419,11 @@ func counts(mode string, thorough bool) (nFrag, nAPI int) {
 	case mode == "lin" && !thorough:
 		nFrag, nAPI = 30, 14
 	case mode == "lin":
-		nFrag, nAPI = 300, 200
+		nFrag, nAPI = 500, 300
 	case !thorough:
 		nFrag, nAPI = 8, 5
 	default:
-		nFrag, nAPI = 40, 20
+		nFrag, nAPI = 80, 40
 	}
 	return behav.EnvInt("VERIF_NFRAG", nFrag), behav.EnvInt("VERIF_NAPI", nAPI)
 }
